@@ -892,83 +892,141 @@ func (w *Walker) callInternalFull(call *ast.CallExpr, fn *FuncInfo, st *State, n
 			recvLoc = locOf(recvs[i].Name)
 		}
 		for ci, cl := range sum.Classes {
-			ns := s
+			ns0 := s
 			if ci < len(sum.Classes)-1 {
-				ns = s.clone()
+				ns0 = s.clone()
 			}
-			kl := cl.killList()
-			sort.SliceStable(kl, func(i, j int) bool { return kl[i].kind&KillStable == 0 && kl[j].kind&KillStable != 0 })
-			for _, k := range kl {
-				loc := k.loc
-				if strings.HasPrefix(loc, "recv.") || loc == "recv" {
-					if recvs[i] == rootRecv || fn.RecvVar == nil && hasTerm(args[i], rootRecv) {
-						// same receiver object (as receiver, or handed to a plain function): locations coincide
-					} else if recvLoc == "" {
-						continue
-					} else {
-						loc = recvLoc
-					}
-				}
-				applyKill(ns, loc, k.kind, nil)
+			// a callee that stores a received payload into its sender's slot: as at a direct store (splitOwnSender), a
+			// path holding an "own slot is empty" fact for that table is split by whether the sender is this node
+			variants := []*State{ns0}
+			if lit, ok := w.ownSenderSplitLit(cl, args[i], ns0); ok {
+				ts, fs := split(ns0, lit)
+				variants = append(append([]*State{}, ts...), fs...)
 			}
-			for e := range cl.Events {
-				ns.Events[e] = true
-			}
-			if cl.Ret == "true" || cl.Ret == "false" || cl.Ret == "nil" || cl.Ret == "nn" {
-				ns.Events["fn:"+fn.Name+"="+cl.Ret] = true
-			}
-			ns.Events["fn:"+fn.Name] = true
-			ns.logEv("fn:" + fn.Name)
-			if cl.Events["if:Timer.Reset"] {
-				ns.logEv("if:Timer.Reset")
-			}
-			var ts []*Term
-			rcs := strings.Split(cl.Ret, ",")
-			for r := 0; r < nres; r++ {
-				rc := ""
-				if r < len(rcs) {
-					rc = rcs[r]
-				}
-				switch rc {
-				case "true", "false":
-					ts = append(ts, constTerm(rc))
-				case "nil":
-					ts = append(ts, nilTerm)
-				case "nn":
-					t := fresh("ret:" + fn.Name + ":")
-					t.NonNil = true
-					ts = append(ts, t)
-				default:
-					ts = append(ts, fresh("ret:"+fn.Name+":"))
-				}
-			}
-			if len(ts) > 0 && cl.RetField != "" {
-				ts[0] = mkTerm(KField, cl.RetField)
-			}
-			// post facts (parameter terms stand for the arguments' values at the call)
-			var psub map[string]*Term
-			for _, l := range cl.Post {
-				if hasParamTerm(l.A.A) || hasParamTerm(l.A.B) {
-					if psub == nil {
-						psub = map[string]*Term{}
-						for j, p := range fn.Params {
-							if j < len(args[i]) && args[i][j] != nil {
-								psub["p:"+p.Name()] = args[i][j]
-							}
+			for _, ns := range variants {
+				kl := cl.killList()
+				sort.SliceStable(kl, func(i, j int) bool { return kl[i].kind&KillStable == 0 && kl[j].kind&KillStable != 0 })
+				for _, k := range kl {
+					loc := k.loc
+					if strings.HasPrefix(loc, "recv.") || loc == "recv" {
+						if recvs[i] == rootRecv || fn.RecvVar == nil && hasTerm(args[i], rootRecv) {
+							// same receiver object (as receiver, or handed to a plain function): locations coincide
+						} else if recvLoc == "" {
+							continue
+						} else {
+							loc = recvLoc
 						}
 					}
-					if !paramsCovered(l.A.A, psub) || !paramsCovered(l.A.B, psub) {
+					applyKill(ns, loc, k.kind, nil)
+				}
+				for e := range cl.Events {
+					ns.Events[e] = true
+				}
+				if cl.Ret == "true" || cl.Ret == "false" || cl.Ret == "nil" || cl.Ret == "nn" {
+					ns.Events["fn:"+fn.Name+"="+cl.Ret] = true
+				}
+				ns.Events["fn:"+fn.Name] = true
+				ns.logEv("fn:" + fn.Name)
+				if cl.Events["if:Timer.Reset"] {
+					ns.logEv("if:Timer.Reset")
+				}
+				var ts []*Term
+				rcs := strings.Split(cl.Ret, ",")
+				for r := 0; r < nres; r++ {
+					rc := ""
+					if r < len(rcs) {
+						rc = rcs[r]
+					}
+					switch rc {
+					case "true", "false":
+						ts = append(ts, constTerm(rc))
+					case "nil":
+						ts = append(ts, nilTerm)
+					case "nn":
+						t := fresh("ret:" + fn.Name + ":")
+						t.NonNil = true
+						ts = append(ts, t)
+					default:
+						ts = append(ts, fresh("ret:"+fn.Name+":"))
+					}
+				}
+				if len(ts) > 0 && cl.RetField != "" {
+					ts[0] = mkTerm(KField, cl.RetField)
+				}
+				// post facts (parameter terms stand for the arguments' values at the call)
+				var psub map[string]*Term
+				for _, l := range cl.Post {
+					if hasParamTerm(l.A.A) || hasParamTerm(l.A.B) {
+						if psub == nil {
+							psub = map[string]*Term{}
+							for j, p := range fn.Params {
+								if j < len(args[i]) && args[i][j] != nil {
+									psub["p:"+p.Name()] = args[i][j]
+								}
+							}
+						}
+						if !paramsCovered(l.A.A, psub) || !paramsCovered(l.A.B, psub) {
+							continue
+						}
+						ns.F.add(Lit{substAtomByS(l.A, psub), l.Pos})
 						continue
 					}
-					ns.F.add(Lit{substAtomByS(l.A, psub), l.Pos})
-					continue
+					ns.F.add(l)
 				}
-				ns.F.add(l)
+				out = append(out, callRes{ns, ts})
 			}
-			out = append(out, callRes{ns, ts})
 		}
 	}
 	return out
+}
+
+// ownSenderSplitLit: the class stores a non-nil payload into a sender's slot of a per-validator table for which the state
+// holds "own slot empty", one of the arguments is a received payload, and the state does not know whether its sender is
+// this node: the literal to split on.
+func (w *Walker) ownSenderSplitLit(cl *ExitClass, args []*Term, st *State) (Lit, bool) {
+	if w.Fn.Pkg.PkgPath != modPath {
+		return Lit{}, false
+	}
+	need := false
+	for loc, k := range cl.Kills {
+		if k&KillNNSender == 0 {
+			continue
+		}
+		switch loc {
+		case "ctx.PreparationPayloads", "ctx.PreCommitPayloads", "ctx.CommitPayloads", "ctx.ChangeViewPayloads":
+		default:
+			continue
+		}
+		own := mkAtom("nn", mkTerm(KIndex, "", mkTerm(KField, loc), tMyIndex), nil)
+		if v, known := st.F.value(own); known && !v {
+			need = true
+		}
+	}
+	if !need {
+		return Lit{}, false
+	}
+	var sender *Term
+	for _, a := range args {
+		if a == nil || a.K != KParam {
+			continue
+		}
+		t := getter("ConsensusPayload", "ValidatorIndex", a, true)
+		if idxClass(t, st) != "sender" {
+			continue
+		}
+		if sender != nil {
+			return Lit{}, false
+		}
+		sender = t
+	}
+	if sender == nil {
+		return Lit{}, false
+	}
+	at := mkAtom("eq", tMyIndex, sender)
+	if _, known := st.F.value(at); known {
+		return Lit{}, false
+	}
+	return Lit{at, true}, true
 }
 
 // pureResult builds the canonical term for a call to a pure module function.
